@@ -12,7 +12,7 @@ pub fn property() -> Property {
     Property {
         id: "C02",
         level: "exploration",
-        rule: "(a) games of up to 300 plies played on ONE engine board with make() only, from seed FENs re-based to half-move clocks up to 10^9 (incl. >= 2^18) and full-move numbers up to 4*10^9; (b) every legal move of generated positions. Oracle: Fen::from(&board).fen after make equals the FEN of the reference successor, compared field by field. Non-trivial = distinct (4-field FEN, move) where the move is castle / e.p. / promotion / double push / king or rook move with a right set / capture on a corner with the opponent's right set / clock >= 100 before the move",
+        rule: "(a) games of up to 300 plies played on ONE engine board with make() only, from seed FENs re-based to half-move clocks up to 10^9 (incl. >= 2^18) and full-move numbers up to 4*10^9; (b) every legal move of generated positions; (c) games of up to 200 plies on one board on which the legal moves are generated (make + unmake of every candidate) before every move, clocks <= 4095. Oracle: Fen::from(&board).fen after make equals the FEN of the reference successor, compared field by field. Non-trivial = distinct (4-field FEN, move) where the move is castle / e.p. / promotion / double push / king or rook move with a right set / capture on a corner with the opponent's right set / clock >= 100 before the move",
         assumptions: &["reference successor function validated indirectly by published perft counts", "the move object is taken from the engine's own pseudo-legal list by UCI text (no unmake is executed on the board under test: unmake only restores clocks <= 4095, which is C03's stated domain)"],
         parts: vec![
             Part {
@@ -22,6 +22,26 @@ pub fn property() -> Property {
                 single_shard: false, supplementary: false,
                 run: |cfg| run_part(cfg, gen::raw_playout(300), |r| gen::play(r, ClockDomain::Board).to_game(), check_game),
                 replay: |v| replay_case::<Game, _>(v, check_game),
+            },
+            Part {
+                name: "games_with_lookahead",
+                quick: 4_000,
+                thorough: 60_000,
+                single_shard: false, supplementary: false,
+                run: |cfg| {
+                    run_part(
+                        cfg,
+                        gen::raw_playout(200),
+                        |r| {
+                            // here the board IS unmade between moves: stay inside unmake's clock domain (<= 4095, see C03)
+                            let mut start = gen::seed_position(r, ClockDomain::Unmake);
+                            start.half = start.half.min(4095 - r.choices.len() as u64 - 1);
+                            gen::play_from(start, &r.choices).to_game()
+                        },
+                        check_game_with_lookahead,
+                    )
+                },
+                replay: |v| replay_case::<Game, _>(v, check_game_with_lookahead),
             },
             Part {
                 name: "all_moves",
@@ -112,6 +132,32 @@ pub fn check_game(case: &Game, ctx: &mut Ctx) -> Result<(), String> {
         check_one(&mut b, &g.positions[i], m, ctx).map_err(|e| format!("ply {}: {e}", i + 1))?;
     }
     ctx.sample(|| serde_json::json!({"start": case.start, "plies": case.moves.len(), "first_moves": case.moves.iter().take(12).collect::<Vec<_>>()}));
+    Ok(())
+}
+
+/// The way every real caller uses the board: legality filtering (make + unmake of every candidate) before each
+/// move, all on one object. `make` must still produce the FIDE successor, read through the engine's FEN writer
+/// and, independently of it, through the twelve piece bitboards.
+pub fn check_game_with_lookahead(case: &Game, ctx: &mut Ctx) -> Result<(), String> {
+    let g = case.to_gamep()?;
+    let mut b = eng::board_from_pos(&g.start);
+    for (i, &m) in g.moves.iter().enumerate() {
+        let p = &g.positions[i];
+        let n_legal = b.generate_legal_moves().len();
+        if n_legal != p.legal_moves().len() {
+            return Err(format!("ply {}: {n_legal} legal moves in {} instead of {} (see C01)", i + 1, p.fen(), p.legal_moves().len()));
+        }
+        check_one(&mut b, p, m, ctx).map_err(|e| format!("ply {} (board used for move generation before every move): {e}", i + 1))?;
+        let want = g.positions[i + 1].fen();
+        let raw = eng::snap(&b).fen;
+        if raw != want {
+            return Err(format!("ply {} (board used for move generation before every move): after {m} in {}: piece bitboards / fields give {raw}, rules give {want}", i + 1, p.fen()));
+        }
+    }
+    if g.moves.len() >= 20 {
+        ctx.class("lookahead_game_ge_20_plies");
+    }
+    ctx.sample(|| serde_json::json!({"start": case.start, "plies": case.moves.len(), "lookahead": true}));
     Ok(())
 }
 
